@@ -61,6 +61,8 @@ def generate(tier, rng):
                 ops.append("alias")
             elif k == 5:
                 ops.append("alias %s" % nm)
+            elif k == 6 and r.below(3) == 0:
+                ops.append("unset %s" % r.choice(["ls", "ll", "g", "x-y", "A_1", "wc", "foo"]))      # removes variables / functions, never an alias
             elif k == 6:
                 ops.append("use %s -x %s | %s a" % (nm, r.choice(NAMES), r.choice(NAMES)))
             else:
